@@ -118,6 +118,7 @@ def native_coverage(prop, res, sig):
             "mem.flush_left (buffers)": st.get("place_left", 0),
             "mem.flush_right (buffers)": st.get("place_right", 0),
             "mem.interior (buffers)": st.get("place_mid", 0),
+            "mem.refill (buffers sharing memory that is rewritten between searches)": st.get("place_over", 0),
             "mem.kill_needle": st.get("needle_kills", 0),
             "prefilter.force_inert": st.get("forced_inert", 0),
             "object hand-offs (send/share)": [st.get("sends", 0), st.get("shares", 0)],
